@@ -477,18 +477,16 @@ package snapshot
 // into place has not happened (before it, every operation just (re)creates things under the tmp
 // directory from the still-present old directory). So the resume branch must first look whether
 // the new directory is already there; if it is, all that can remain is removing the old one.
-//@   ghost update @fsutil.DirExists#1: newSeen = true
-//@   ghost update @fsutil.DirExists#1: newExists = result
-//@   assert @fsutil.DirExists#1: [resume-looks-for-the-renamed-directory] arg0 == new
-//@   assert @p.Execute#1: [resume-replays-only-before-the-rename] !persisted && newSeen && !newExists
-//@   ghost update @p.Execute#1: resumedOK = (result == nil)
-//@   ghost update @os.RemoveAll#1: oldGone = (result == nil && arg0 == old)
-//@   assert @os.RemoveAll#1: [resume-completion-removes-only-the-old-directory] newSeen && newExists && arg0 == old
-//@   assert @os.Remove#2: [resume-completion-drops-plan-only-after-old-removed] newSeen && newExists && oldGone && arg0 == planPath
-//@   assert @os.Remove#3: [resume-drops-plan-only-after-success] resumedOK && arg0 == planPath
-//@   assert @p.Execute#2: [plan-persisted-before-execution] persisted && step == 7 && p == planV
-//@   ghost update @p.Execute#2: execOK = (result == nil)
-//@   assert @os.Remove#4: [plan-file-removed-only-after-success] execOK && arg0 == planPath
+//@   ghost var resuming bool = false
+//@   ghost update after @plan.ReadFromFile: resuming = (result1 == nil)
+//@   ghost update after @fsutil.DirExists: newExists = ite(resuming && !newSeen && arg0 == new, result, newExists)
+//@   ghost update after @fsutil.DirExists: newSeen = (newSeen || (resuming && arg0 == new))
+//@   assert @p.Execute: [executed-only-when-persisted-or-safely-resumed] (persisted && step == 7 && p == planV) || (!persisted && resuming && newSeen && !newExists)
+//@   ghost update after @p.Execute: resumedOK = (resumedOK || (resuming && result == nil))
+//@   ghost update after @p.Execute: execOK = (execOK || (persisted && result == nil))
+//@   ghost update after @os.RemoveAll: oldGone = (oldGone || (resuming && result == nil && arg0 == old))
+//@   assert @os.RemoveAll: [resume-completion-removes-only-the-old-directory] resuming ==> (newSeen && newExists && arg0 == old)
+//@   assert @os.Remove: [plan-file-removed-only-after-success] arg0 == planPath + ".tmp" || (arg0 == planPath && (resumedOK || execOK || (resuming && newSeen && newExists && oldGone)))
 
 // ---- C04 --------------------------------------------------------------------------------------------
 //@ func (Type) IsFull
